@@ -124,7 +124,7 @@ Proof.
     rewrite IH. reflexivity.
   - pose proof (split_on_nonempty sep s) as Hne.
     destruct (split_on sep s) as [|h t] eqn:Hs; [contradiction|].
-    rewrite Hs in IH. rewrite join_cons_cons, IH. reflexivity.
+    rewrite join_cons_cons. f_equal. exact IH.
 Qed.
 
 Lemma split_on_no_sep sep s : Forall (fun e => ~ In sep e) (split_on sep s).
